@@ -123,6 +123,7 @@ func genArt(t *rapid.T, i int, subjW []int) Art {
 		a.ByTag, a.Shared = true, true
 	}
 	a.Sha512 = rapid.IntRange(0, 5).Draw(t, "art_sha512") == 0
+	a.OtherAlg = rapid.IntRange(0, 5).Draw(t, "art_other_alg") == 0
 	a.PartialSubject = rapid.IntRange(0, 5).Draw(t, "partial_subject") == 0
 	if a.Kind == "image" {
 		a.NoMediaType = rapid.IntRange(0, 5).Draw(t, "no_media_type") == 0
@@ -442,16 +443,17 @@ type run struct {
 	step int
 	desc string // description of the current step
 	// evidence
-	classes      map[string]bool
-	twoLive      bool // at some point two live artifacts named one subject
-	liveDeletes  int  // deletes of a stored artifact
-	batches      int  // concurrent batches with >= 2 members
-	watchdog     bool
-	lastMainList [3]int // step of the last list through the client under test per subject (-1 none)
-	lastMutation [3]int
-	tagOwner     map[string]string // artifact tags that currently resolve -> digest
-	everStored   map[string]bool
-	doneCalls    int // calls made so far through the client under test with a cancelled / expired context
+	classes        map[string]bool
+	twoLive        bool // at some point two live artifacts named one subject
+	liveDeletes    int  // deletes of a stored artifact
+	batches        int  // concurrent batches with >= 2 members
+	watchdog       bool
+	lastMainList   [3]int // step of the last list through the client under test per subject (-1 none)
+	lastMutation   [3]int
+	tagOwner       map[string]string // artifact tags that currently resolve -> digest
+	everStored     map[string]bool
+	otherAlgStored map[string]bool // stored identities whose last push used a reference of another algorithm than the object
+	doneCalls      int             // calls made so far through the client under test with a cancelled / expired context
 }
 
 func (r *run) class(s string) { r.classes[s] = true }
@@ -525,6 +527,10 @@ func (r *run) compareList(who string, label string, subject string, f Filter, de
 		if a, live := all[d]; live {
 			return evid.V("filter-selects-nonmatching", "%s returns %s (type %q, annotations %s) which does not match the filter; answer %s, model %s",
 				where, r.names([]string{d}), a.expType, mapJSON(a.expAnnot), r.names(order), r.names(wantKeys))
+		}
+		if a := r.objectDigestOf(d); a != nil {
+			return evid.V(sigObjDigest, "%s returns %s, the digest carried by the manifest object that was pushed for art%d, but the push reference named it by the other algorithm and it is stored as %s: the listed digest is not a stored manifest (and the stored one is not listed); answer %s, model %s",
+				where, d, a.idx, a.digest, r.names(order), r.names(wantKeys))
 		}
 		return evid.V("list-entry-leftover", "%s returns %s which is not a stored manifest naming the subject; answer %s, model %s",
 			where, r.names([]string{d}), r.names(order), r.names(wantKeys))
@@ -816,6 +822,11 @@ func (r *run) verify(mainToo bool) *evid.Violation {
 				if cnt[d] > 1 {
 					return evid.V("fallback-tag-entry-duplicated", "%s: %s appears %d times", where, r.names([]string{d}), cnt[d])
 				}
+				if a := r.objectDigestOf(d); a != nil {
+					if _, ok := want[d]; !ok {
+						return evid.V(sigObjDigest, "%s: %s is the digest carried by the manifest object pushed for art%d, but the push reference named it by the other algorithm and it is stored as %s: the listed digest is not a stored manifest (and the stored one is not listed)", where, d, a.idx, a.digest)
+					}
+				}
 				if _, ok := want[d]; !ok {
 					return evid.V("fallback-tag-entry-leftover", "%s: %s is not a stored manifest naming the subject", where, r.names([]string{d}))
 				}
@@ -854,6 +865,21 @@ func (r *run) verify(mainToo bool) *evid.Violation {
 	return nil
 }
 
+const sigObjDigest = "referrer-recorded-under-object-digest-not-reference-digest"
+
+// objectDigestOf returns the pool artifact whose pushed manifest object carries digest d while it is stored under
+// the (different) digest of its push reference.
+func (r *run) objectDigestOf(d string) *rart {
+	for _, a := range r.u.arts {
+		if a.objDigest == d && a.digest != d {
+			if _, plain := r.u.byDigest[d]; !plain {
+				return a
+			}
+		}
+	}
+	return nil
+}
+
 func (r *run) mutated(a *rart) {
 	for si, s := range r.u.subjects {
 		if a.subject == s {
@@ -862,21 +888,23 @@ func (r *run) mutated(a *rart) {
 	}
 }
 
-func (r *run) newManifest(a *rart) (manifest.Manifest, error) {
+// newManifest builds the manifest object identified by the digest want (a.objDigest for a push, a.digest - what
+// the manifest is stored under - when the object accompanies a delete of that reference).
+func (r *run) newManifest(a *rart, want string) (manifest.Manifest, error) {
 	opts := []manifest.Opts{manifest.WithRaw(append([]byte{}, a.body...))}
-	if a.Art.Sha512 {
+	if strings.HasPrefix(want, "sha512:") {
 		// the descriptor's digest selects the algorithm the manifest is identified by
-		opts = append(opts, manifest.WithDesc(descriptor.Descriptor{MediaType: a.mediaType, Digest: godigest.Digest(a.digest), Size: int64(len(a.body))}))
+		opts = append(opts, manifest.WithDesc(descriptor.Descriptor{MediaType: a.mediaType, Digest: godigest.Digest(want), Size: int64(len(a.body))}))
 	}
 	m, err := manifest.New(opts...)
-	if err == nil && m.GetDescriptor().Digest.String() != a.digest {
-		return nil, fmt.Errorf("manifest.New computes digest %s, harness %s", m.GetDescriptor().Digest, a.digest)
+	if err == nil && m.GetDescriptor().Digest.String() != want {
+		return nil, fmt.Errorf("manifest.New computes digest %s, harness %s", m.GetDescriptor().Digest, want)
 	}
 	return m, err
 }
 
 func (r *run) doPut(ctx context.Context, rc *regclient.RegClient, a *rart) error {
-	m, err := r.newManifest(a)
+	m, err := r.newManifest(a, a.objDigest)
 	if err != nil {
 		return fmt.Errorf("harness: manifest.New: %w", err)
 	}
@@ -922,7 +950,8 @@ func (r *run) doDelete(ctx context.Context, rc *regclient.RegClient, a *rart, mo
 		opts = append(opts, regclient.WithManifestCheckReferrers())
 	}
 	if mode == "manifest" || mode == "both" {
-		m, err := r.newManifest(a)
+		// the manifest that is being deleted: the object identified by the digest of the reference
+		m, err := r.newManifest(a, a.digest)
 		if err != nil {
 			return fmt.Errorf("harness: manifest.New: %w", err)
 		}
@@ -935,6 +964,13 @@ func (r *run) doDelete(ctx context.Context, rc *regclient.RegClient, a *rart, mo
 func (r *run) artClasses(a *rart) {
 	if a.Art.Sha512 {
 		r.class("art:sha512-digest")
+	}
+	if a.Art.OtherAlg {
+		if a.Art.Sha512 {
+			r.class("art:sha512-object-pushed-to-sha256-ref")
+		} else {
+			r.class("art:sha256-object-pushed-to-sha512-ref")
+		}
 	}
 	if a.Art.PartialSubject {
 		r.class("art:partial-subject-descriptor")
@@ -972,6 +1008,7 @@ func delMode(s string) string {
 // applyPut / applyDelete update the model after a successful operation.
 func (r *run) applyPut(a *rart) {
 	r.md.stored[a.digest] = true
+	r.otherAlgStored[a.digest] = a.digest != a.objDigest
 	if a.tag != "" {
 		r.tagOwner[a.tag] = a.digest // the tag now names this manifest (a shared tag moves)
 	}
@@ -1037,6 +1074,9 @@ func (r *run) stepSeq(op Op) *evid.Violation {
 		if live {
 			r.class("op:delete-live")
 			r.class("delete-mode:" + mode)
+			if a.digest != a.objDigest || r.otherAlgStored[a.digest] {
+				r.class("op:delete-live-pushed-under-other-algorithm")
+			}
 			if len(r.md.referrers(a.subject)) == 1 {
 				r.class("op:delete-last-referrer")
 			}
@@ -1268,7 +1308,7 @@ func check(c Case, ev *evid.Collector) *evid.Violation {
 	ctx, cancel := context.WithTimeout(context.Background(), 120*time.Second)
 	defer cancel()
 	r := &run{c: c, e: e, u: u, md: &model{u: u, stored: map[string]bool{}}, ev: ev, ctx: ctx, classes: map[string]bool{},
-		tagOwner: map[string]string{}, everStored: map[string]bool{}}
+		otherAlgStored: map[string]bool{}, tagOwner: map[string]string{}, everStored: map[string]bool{}}
 	for i := range r.lastMainList {
 		r.lastMainList[i] = -1
 		r.lastMutation[i] = -1
